@@ -48,6 +48,7 @@ def run(ctx, rep):
     circle_is_ellipse(prog, rep)
     c05.rounded(prog, rep)   # corner quadrant tables (R05.2): zero radii / half-side radii go through the same quadrants
     c05.circle(prog, rep)
+    c05.ellipse(prog, rep)   # Ellipse::contains and the row search test the same EllipseContains on 2p - center_2x (R05.1)
     c05.sector(prog, rep)    # Sector::contains / points measure the wedge from the same doubled centre as the circle (R05.1)
     plane_sector_tables(prog, rep)
     confine_sides(prog, rep)
